@@ -68,6 +68,8 @@ func (p *MultilineAction) Do(event *pipeline.Event) pipeline.ActionResult {
 	if event.IsTimeoutKind() {
 		p.logger.Errorf("can't read next sequential event for k8s pod stream")
 		p.resetLogBuf()
+		// the line that was being skipped is over as well
+		p.skipNextEvent = false
 		return pipeline.ActionDiscard
 	}
 
